@@ -7,19 +7,24 @@ ID="$1"; NAME="${2:-$ID}"; WT=/tmp/seed/$ID; OUT=/verif/seeded/$NAME
 cd "$WT" || exit 2
 [ -f seed_out/patch.diff ] || { echo "no patch.diff"; exit 2; }
 export CARGO_NET_OFFLINE=true
+FEATURES="${FEATURES:-}"
+# start from the agent's patch on a clean checkout (worktrees share one stash: do not trust the working state)
+git checkout -q -- src unimock_macros
+git apply seed_out/patch.diff || { echo "patch does not apply"; exit 2; }
+cp seed_out/seed_demo.rs tests/seed_demo.rs
 echo "--- existing suite with the change"
 SUITE=$(cargo test --workspace --no-fail-fast --offline 2>&1 | grep -E "^test result" | grep -v "seed_demo" )
 echo "$SUITE"
 PASSED=$(cargo test --workspace --no-fail-fast --offline --lib --bins --test it 2>&1 | grep -E "^test result" | awk '{s+=$4} END {print s}')
 echo "passed (lib+it+macros): $PASSED"
 echo "--- demo with the change (must fail)"
-cargo test --offline --test seed_demo 2>&1 | grep -E "^test result|panicked at" | head -5
-WITH=$(cargo test --offline --test seed_demo >/dev/null 2>&1; echo $?)
-git stash push -q -- src unimock_macros
+cargo test --offline $FEATURES --test seed_demo 2>&1 | grep -E "^test result|panicked at" | head -5
+WITH=$(cargo test --offline $FEATURES --test seed_demo >/dev/null 2>&1; echo $?)
+git apply -R seed_out/patch.diff
 echo "--- demo without the change (must pass)"
-cargo test --offline --test seed_demo 2>&1 | grep -E "^test result" | head -3
-WITHOUT=$(cargo test --offline --test seed_demo >/dev/null 2>&1; echo $?)
-git stash pop -q
+cargo test --offline $FEATURES --test seed_demo 2>&1 | grep -E "^test result" | head -3
+WITHOUT=$(cargo test --offline $FEATURES --test seed_demo >/dev/null 2>&1; echo $?)
+git apply seed_out/patch.diff
 echo "demo exit with change=$WITH without=$WITHOUT"
 mkdir -p "$OUT"
 git diff -- src unimock_macros > "$OUT/patch.diff"
